@@ -72,7 +72,9 @@ func (s *set[ElementType]) DeleteAll(other ReadableSet[ElementType]) (removedEle
 
 	removedElements = NewSet[ElementType]()
 	_ = other.ForEach(func(element ElementType) (err error) {
-		if s.Delete(element) {
+		// do not call s.Delete here: it would acquire the read lock recursively, which deadlocks as soon as a writer
+		// (Apply, Compute, Replace) is waiting in between
+		if s.OrderedMap.Delete(element) {
 			removedElements.Add(element)
 		}
 
